@@ -106,6 +106,9 @@ func c05(e *Env) {
 	if e.Tier == "thorough" {
 		p.OpsPerClient = 10 + c.Choose("ops2", 40)
 	}
+	// tuning knob: few stream ids per backend connection, so that whatever the proxy counts per
+	// connection (requests in flight, ids in use) is near its limit after a handful of requests
+	cfg.MaxStreams = []int16{0, 0, 3, 6}[c.Choose("maxstreams", 4)]
 	f := newFwd(e, p, cfg)
 	if !f.bootOK() || !f.connectClients() {
 		return
@@ -133,6 +136,7 @@ func c05(e *Env) {
 	sort.Slice(hosts, func(i, j int) bool { return hosts[i].Addr < hosts[j].Addr })
 	cl := f.clients[0]
 	checked := 0
+	forgetful := !f.sharePrepared && c.Choose("forgetful-nodes", 2) == 1
 	for op := 0; op < p.OpsPerClient && !w.Stopped(); op++ {
 		// world settles: every node that is up has its pool connections - or, in half of the
 		// cases, at least one of them (a pool that is still replacing a lost connection is usable)
@@ -140,6 +144,12 @@ func c05(e *Env) {
 		if !f.settle(5 * time.Minute) {
 			e.Res.Stats["c05.unsettled"]++
 			break
+		}
+		// some runs: a node loses its prepared statements now and then (a restart, an eviction): every
+		// EXECUTE it sees next is one more UNPREPARED round on that connection
+		if forgetful && c.Choose("forgets", 3) == 2 {
+			hosts[c.Choose("forgetwho", len(hosts))].Prepared = map[string]string{}
+			e.Res.Stats["probe.c05.node_forgot_prepared_statements"]++
 		}
 		// some hosts are down for the whole request
 		down := map[*world.Node]bool{}
